@@ -25,6 +25,12 @@ Inv_BlockedCode == Small => \A bs \in 1..(2 * KC) : BlockedCode(A, B, c.ta, c.tb
 \* (X Y)^T = Y^T X^T, the identity the both-transposed branch relies on
 Inv_TransposeIdentity == (Small /\ c.bad = 0) => Transpose(MulPlain(Op(A, c.ta), Op(B, c.tb))) = MulPlain(Transpose(Op(B, c.tb)), Transpose(Op(A, c.ta)))
 
+\* homogeneity: scaling the operands by s and t scales the product by s t.  The replay uses it with powers of two
+\* (exact in binary floating point) to carry the equality oracle to entries of magnitude 2^-60 .. 2^500.
+ScaleM(X, s) == Mat(X.nrows, X.ncols, [q \in 1..Len(X.data) |-> s * X.data[q]])
+Inv_Homogeneous == (Small /\ c.bad = 0) => \A s \in {2, 0 - 3}, t \in {1, 5} :
+                      ProdSpec(ScaleM(A, s), ScaleM(B, t), c.ta, c.tb) = ScaleM(ProdSpec(A, B, c.ta, c.tb), s * t)
+
 Emit == PrintT(<<"CASE", ToJson([m |-> c.m, l |-> c.l, n |-> c.n, ta |-> c.ta, tb |-> c.tb, bad |-> c.bad,
                                  a |-> A, b |-> B, exp |-> ProdSpec(A, B, c.ta, c.tb),
                                  xtx |-> ProdSpec(A, A, TRUE, FALSE)])>>)
